@@ -159,5 +159,4 @@ func modeLife(thorough bool) {
 			lifeScenario(k, w, rng)
 		}
 	}
-	onlyEvents = nil
 }
